@@ -155,7 +155,7 @@ class TreeMachine(RuleBasedStateMachine):
 
     @precondition(lambda self: len(self.live) > 0)
     @rule(bpick=st.integers(0, 100), upick=st.integers(0, 100),
-          how=st.sampled_from(["pos_elem", "pos_list", "move", "move", "time_update", "stop", "vel_elem"]),
+          how=st.sampled_from(["pos_elem", "pos_list", "move", "move", "time_update", "stop", "vel_elem", "share"]),
           x=st.floats(0.0, 0.999), q=st.integers(0, 5))
     def mutate(self, bpick, upick, how, x, q):
         from jellyfysh.base.time import Time
@@ -177,10 +177,24 @@ class TreeMachine(RuleBasedStateMachine):
         elif how == "vel_elem":
             if unit.velocity is not None:
                 unit.velocity[q % self.dim] = x + 0.25
+        elif how == "share":
+            # several units of one branch start to move with ONE velocity list and ONE Time object (an event handler is
+            # free to do that): after the commit each unit must nevertheless keep its own value in the global state
+            shared_v = [x + 0.5 if i == q % self.dim else 0.0 for i in range(self.dim)]
+            shared_t = Time(float(q), x)
+            for other in units.values():
+                other.value.velocity = shared_v
+                other.value.time_stamp = shared_t
+            b["shared"] = True
+            self.flags.add("shared-objects")
         else:
             unit.velocity = None
             unit.time_stamp = None
         b["expect"][ident] = freeze(unit)
+        if b.get("shared"):
+            # units of this branch hold common objects (put there by the harness): what the branch now contains is what
+            # an insert has to store
+            b["expect"] = {i: freeze(cn.value) for i, cn in units.items()}
         b["mutated"] = True
         others = [o for o in self.live if o is not b and ident in o["expect"]]
         if others:
